@@ -379,6 +379,153 @@ theorem valset_after {env : Env} {cs cs' : ClientState} {st st' : Store} {bt : N
   · intro hsw; rw [hcs']; simp only [hsw, ↓reduceIte]; exact hp
   · intro hsw; rw [hcs']; simp only [hsw, ↓reduceIte]
 
+theorem not_or_not_iff {p q : Prop} : (¬p ∨ ¬q) ↔ (p → ¬q) := by
+  constructor
+  · rintro (h | h) hp
+    · exact absurd hp h
+    · exact h
+  · intro h
+    by_cases hp : p
+    · exact Or.inr (h hp)
+    · exact Or.inl hp
+
+/-! ## consensus states: an accepted update overwrites its height, an upgrade keeps the other heights -/
+
+theorem mem_setCons {e c : Cons} {l : List Cons} :
+    e ∈ setCons l c ↔ e = c ∨ (e ∈ l ∧ ¬(e.rev = c.rev ∧ e.num = c.num)) := by
+  simp [setCons, not_or_not_iff]
+
+theorem mem_deleteCons {e : Cons} {l : List Cons} {rev num : Nat} :
+    e ∈ deleteCons l rev num ↔ e ∈ l ∧ ¬(e.rev = rev ∧ e.num = num) := by
+  simp [deleteCons, not_or_not_iff]
+
+/-- the consensus states after an accepted update, in closed form: the header's own state at its height
+(written unconditionally — `setCons` removes whatever was stored under that height), every other stored state
+unchanged, minus the earliest one if it had expired. -/
+theorem update_cons {env : Env} {cs cs' : ClientState} {st st' : Store} {bt : Nat} {h : Header}
+    (hacc : updateClient Fix.fixed env cs st bt h = .ok (cs', st')) :
+    st'.cons = setCons
+      (match pruneTarget cs.trustingPeriod bt st.cons with
+        | none => st.cons
+        | some c => deleteCons st.cons c.rev c.num)
+      ⟨h.rev, h.number, h.time, h.root⟩ := by
+  obtain ⟨c, st1, st2, _, _, hv, hu, hst'⟩ := updateClient_ok hacc
+  obtain ⟨_, _, _, _, hcf⟩ := verifyHeader_ok hv
+  obtain ⟨_, _, _, _, _, _, hs⟩ := verifyCascadingFields_ok hcf
+  obtain ⟨signer, _, _, _, _, _, hst1⟩ := verifySeal_ok hs
+  obtain ⟨_, pending, _, _, hst2⟩ := update_ok hu
+  rw [hst', hst2]
+  simp only
+  congr 1
+  unfold pruneExpired
+  rw [hst1]
+  simp only
+  cases pruneTarget cs.trustingPeriod bt st.cons <;> rfl
+
+/-- **accepted_root_stored**: after an accepted update the consensus state stored at the header's height is
+`⟨time, root⟩` of THAT header and it is the only one stored for that height — whatever was stored there before
+(a state of an abandoned branch left behind by an upgrade, a re-submitted height). -/
+theorem accepted_root_stored {env : Env} {cs cs' : ClientState} {st st' : Store} {bt : Nat} {h : Header}
+    (hacc : updateClient Fix.fixed env cs st bt h = .ok (cs', st')) :
+    lookupCons st'.cons h.rev h.number = some ⟨h.rev, h.number, h.time, h.root⟩
+    ∧ ∀ e ∈ st'.cons, e.rev = h.rev → e.num = h.number → e = ⟨h.rev, h.number, h.time, h.root⟩ := by
+  refine ⟨(root_recorded hacc).1, ?_⟩
+  intro e he hr hn
+  rw [update_cons hacc] at he
+  rcases mem_setCons.1 he with h1 | ⟨_, h2⟩
+  · exact h1
+  · exact absurd ⟨hr, hn⟩ h2
+
+/-- an accepted update leaves the consensus state of every other height alone, except the earliest one when it
+has expired (so along a run every accepted height keeps the root of the header accepted for it until it is pruned
+or written again) -/
+theorem update_keeps_other_heights {env : Env} {cs cs' : ClientState} {st st' : Store} {bt : Nat} {h : Header}
+    (hacc : updateClient Fix.fixed env cs st bt h = .ok (cs', st')) (e : Cons)
+    (hk : ¬(e.rev = h.rev ∧ e.num = h.number))
+    (hp : ∀ c, pruneTarget cs.trustingPeriod bt st.cons = some c → ¬(e.rev = c.rev ∧ e.num = c.num)) :
+    e ∈ st'.cons ↔ e ∈ st.cons := by
+  rw [update_cons hacc, mem_setCons]
+  cases hpt : pruneTarget cs.trustingPeriod bt st.cons with
+  | none =>
+    simp only
+    constructor
+    · rintro (h1 | ⟨h1, _⟩)
+      · rw [h1] at hk; exact absurd ⟨rfl, rfl⟩ hk
+      · exact h1
+    · intro h1; exact Or.inr ⟨h1, hk⟩
+  | some c =>
+    simp only [mem_deleteCons]
+    constructor
+    · rintro (h1 | ⟨⟨h1, _⟩, _⟩)
+      · rw [h1] at hk; exact absurd ⟨rfl, rfl⟩ hk
+      · exact h1
+    · intro h1; exact Or.inr ⟨⟨h1, hp c hpt⟩, hk⟩
+
+theorem upgradeClient_ok {env : Env} {st st' : Store} {cs1 cs' : ClientState} {bt : Nat}
+    (hu : upgradeClient env st cs1 bt = .ok (cs', st')) :
+    cs' = cs1 ∧ cs1.epoch ≠ 0 ∧ cs1.head.number % cs1.epoch = 0
+    ∧ ∃ signer pending, env.recover cs1.chainId cs1.head = some signer ∧ signer = toAddr cs1.head.coinbase
+      ∧ parseValidators cs1.head.extra = some pending
+      ∧ st'.recents = [⟨cs1.head.rev, cs1.head.number, signer⟩] ∧ st'.pending = pending
+      ∧ st'.cons = setCons
+          (match pruneTarget cs1.trustingPeriod bt st.cons with
+            | none => st.cons
+            | some c => deleteCons st.cons c.rev c.num)
+          ⟨cs1.head.rev, cs1.head.number, cs1.head.time, cs1.head.root⟩ := by
+  unfold upgradeClient at hu
+  split at hu; · cases hu
+  rename_i h1
+  split at hu; · cases hu
+  split at hu; · cases hu
+  split at hu
+  · cases hu
+  · cases hu
+  · split at hu; · cases hu
+    rename_i h2
+    simp only at hu
+    split at hu
+    · cases hu
+    · rename_i signer hr
+      split at hu; · cases hu
+      rename_i h3
+      split at hu
+      · cases hu
+      · rename_i pending hp
+        simp only [Outcome.ok.injEq, Prod.mk.injEq] at hu
+        obtain ⟨hc, hs⟩ := hu
+        subst hs
+        exact ⟨hc.symm, h1, by simpa using h2, signer, pending, hr, by simpa using h3, hp, rfl, rfl, rfl⟩
+
+/-- **upgrade keeps the other heights**: `UpgradeClient` resets head, recents and pending validators but every
+consensus state of another height survives (minus the earliest one when it has expired under the new trusting
+period) — in particular the states of an abandoned branch above the new head stay in the store; the new head's own
+height is overwritten. -/
+theorem upgrade_keeps_other_heights {env : Env} {st st' : Store} {cs1 cs' : ClientState} {bt : Nat}
+    (hu : upgradeClient env st cs1 bt = .ok (cs', st')) (e : Cons)
+    (hk : ¬(e.rev = cs1.head.rev ∧ e.num = cs1.head.number))
+    (hp : ∀ c, pruneTarget cs1.trustingPeriod bt st.cons = some c → ¬(e.rev = c.rev ∧ e.num = c.num)) :
+    (e ∈ st'.cons ↔ e ∈ st.cons)
+    ∧ lookupCons st'.cons cs1.head.rev cs1.head.number
+        = some ⟨cs1.head.rev, cs1.head.number, cs1.head.time, cs1.head.root⟩ := by
+  obtain ⟨_, _, _, signer, pending, _, _, _, _, _, hcons⟩ := upgradeClient_ok hu
+  refine ⟨?_, by rw [hcons]; exact lookupCons_setCons _ _⟩
+  rw [hcons, mem_setCons]
+  cases hpt : pruneTarget cs1.trustingPeriod bt st.cons with
+  | none =>
+    simp only
+    constructor
+    · rintro (h1 | ⟨h1, _⟩)
+      · rw [h1] at hk; exact absurd ⟨rfl, rfl⟩ hk
+      · exact h1
+    · intro h1; exact Or.inr ⟨h1, hk⟩
+  | some c =>
+    simp only [mem_deleteCons]
+    constructor
+    · rintro (h1 | ⟨⟨h1, _⟩, _⟩)
+      · rw [h1] at hk; exact absurd ⟨rfl, rfl⟩ hk
+      · exact h1
+    · intro h1; exact Or.inr ⟨⟨h1, hp c hpt⟩, hk⟩
+
 /-! ## order independence (cited by the determinism property C14) -/
 
 theorem mem_insertSorted {a x : Addr} {l : List Addr} : x ∈ insertSorted a l ↔ x = a ∨ x ∈ l := by
@@ -516,16 +663,6 @@ theorem verifySeal_accepts_perm {fx : Fix} {env : Env} {cs1 cs2 : ClientState} {
     all_goals rfl
 
 /-! ## runs -/
-
-theorem not_or_not_iff {p q : Prop} : (¬p ∨ ¬q) ↔ (p → ¬q) := by
-  constructor
-  · rintro (h | h) hp
-    · exact absurd hp h
-    · exact h
-  · intro h
-    by_cases hp : p
-    · exact Or.inr (h hp)
-    · exact Or.inl hp
 
 theorem mem_setSigner {e : Signer} {rs : List Signer} {rev num : Nat} {a : Addr} :
     e ∈ setSigner rs rev num a ↔ e = ⟨rev, num, a⟩ ∨ (e ∈ rs ∧ ¬(e.rev = rev ∧ e.num = num)) := by
@@ -883,6 +1020,15 @@ theorem applyOp_untouched {env : Env} {w : World} {op : Op} {c : Nat} (h : op.to
     cases w i with
     | none => rfl
     | some s => rfl
+  | upgrade i cs1 bt =>
+    simp only [Op.touches, beq_eq_false_iff_ne, ne_eq] at h
+    simp only [applyOp]
+    cases w i with
+    | none => rfl
+    | some s =>
+      obtain ⟨cs, st⟩ := s
+      simp only
+      cases upgradeClient env st cs1 bt <;> simp [World.set, Ne.symm h]
 
 theorem applyOp_congr {env : Env} {w w' : World} {op : Op} {c : Nat} (hw : w c = w' c) (h : op.touches c = true) :
     (applyOp env w op).1 c = (applyOp env w' op).1 c ∧ (applyOp env w op).2 = (applyOp env w' op).2 := by
@@ -915,6 +1061,20 @@ theorem applyOp_congr {env : Env} {w w' : World} {op : Op} {c : Nat} (hw : w c =
       | err e => exact ⟨hw, rfl⟩
       | panic p => exact ⟨hw, rfl⟩
   | dry i bt hd => simp [Op.touches] at h
+  | upgrade i cs1 bt =>
+    simp only [Op.touches, beq_iff_eq] at h
+    subst h
+    simp only [applyOp]
+    rw [hw]
+    cases w' i with
+    | none => exact ⟨hw, rfl⟩
+    | some s =>
+      obtain ⟨cs, st⟩ := s
+      simp only
+      cases upgradeClient env st cs1 bt with
+      | ok s => simp [World.set]
+      | err e => exact ⟨hw, rfl⟩
+      | panic p => exact ⟨hw, rfl⟩
 
 /-- **frame**: the committed state of client `c` after a history is the state after the sub-history of the
 operations that address `c` — operations on other clients and discarded executions (`dry`, on any client,
@@ -1162,6 +1322,33 @@ theorem handover_at_offset_0 :
     ∧ (run Fix.fixed env oneClient (oneBlocks ++ [(0, hdr 9 1 2 115)])).isOk = false
     ∧ (run Fix.fixed env oneClient (oneBlocks ++ [(0, hdr 9 2 2 115)])).isOk = true := by
   refine ⟨by decide +kernel, by decide +kernel, by decide +kernel⟩
+
+/-! ### reorganisation repaired by an upgrade: branch B overwrites the roots branch A left behind -/
+
+def branchBHead : Header := { hdr 4 1 2 100 [1, 2, 3] with root := [0xAA] }
+
+def reorgOps : List Op :=
+  [.create 0 growClient, .update 0 0 (hdr 5 2 1 103), .update 0 0 (hdr 6 1 2 106),
+   .upgrade 0 { growClient with head := branchBHead } 0,
+   .update 0 0 { hdr 5 2 1 103 with root := [0xBB] }]
+
+def rootAt (s : Option (ClientState × Store)) (num : Nat) : Option Bytes :=
+  match s with
+  | some (_, st) => (lookupCons st.cons 0 num).map (fun c => c.root)
+  | none => none
+
+def headNumber (s : Option (ClientState × Store)) : Option Nat := s.map (fun p => p.1.head.number)
+
+/-- the client follows branch A (5, 6), is upgraded back to another header at height 4, then accepts branch B's
+header 5: the state of height 5 is branch B's root, height 4 is the new head's root, height 6 (not yet re-written)
+still holds branch A's root — the upgrade keeps it, the next accepted header 6 will overwrite it. -/
+theorem reorg_overwrites_root :
+    headNumber (runOps env World.empty reorgOps 0) = some 5
+    ∧ rootAt (runOps env World.empty reorgOps 0) 4 = some [0xAA]
+    ∧ rootAt (runOps env World.empty reorgOps 0) 5 = some [0xBB]
+    ∧ rootAt (runOps env World.empty reorgOps 0) 6 = some [6]
+    ∧ rootAt (runOps env World.empty (reorgOps.take 3) 0) 5 = some [5] := by
+  refine ⟨by decide +kernel, by decide +kernel, by decide +kernel, by decide +kernel, by decide +kernel⟩
 
 end Witness
 
